@@ -15,6 +15,7 @@
     sendMessageloop `send` + BGPMessage.Serialize    -> sendMaxLen / sendOpts / serializeFits / sendWrites
     fsm.sendNotification                             -> notifWrites
     bgp.IsAddPathEnabled                             -> expectsPathId
+    oc.getLocalAsForPeer / IsConfederation / the LocalAs+PeerType defaults -> getLocalAsForPeer / applyDefaults
     keepaliveTicker, hold timer of openconfirm/established -> tickerSecs / holdTimerSecs
 
   Representation choices (all only re-encodings, none changes a decision):
@@ -67,6 +68,30 @@ structure LocalCfg where
   confedMembers   : List Nat  -- Global.Confederation.Config.MemberAsList
   afs             : List AfCfg
 deriving Repr, Inhabited
+
+/-- oc.Global, the fields that decide which AS a neighbour speaks with -/
+structure GlobalCfg where
+  as            : Nat        -- Global.Config.As
+  confedEnabled : Bool       -- Global.Confederation.Config.Enabled
+  confedId      : Nat        -- Global.Confederation.Config.Identifier
+  members       : List Nat   -- Global.Confederation.Config.MemberAsList
+deriving Repr, Inhabited
+
+/-- oc.Global.IsConfederation -/
+def GlobalCfg.isConfederation (g : GlobalCfg) (peerAs : Nat) : Bool :=
+  peerAs == g.as || g.members.contains peerAs
+
+/-- oc.getLocalAsForPeer: the confederation identifier towards peers outside the confederation -/
+def getLocalAsForPeer (g : GlobalCfg) (peerAs : Nat) : Nat :=
+  if g.confedEnabled && !g.isConfederation peerAs then g.confedId else g.as
+
+/-- the LocalAs / PeerType part of oc.setDefaultNeighborConfigValuesWithViper: a per-neighbour
+    local-as wins, otherwise getLocalAsForPeer; PeerType from the two configured AS numbers
+    (getConfigPeerType).  Every later step (buildopen, ValidateOpenMsg, stateChange) reads the
+    NEIGHBOUR's LocalAs, never Global.Config.As. -/
+def applyDefaults (g : GlobalCfg) (cfgLocalAs : Nat) (c : LocalCfg) : LocalCfg :=
+  let la := if cfgLocalAs = 0 then getLocalAsForPeer g c.peerAs else cfgLocalAs
+  { c with localAs := la, cfgInternal := c.peerAs == la, confedMembers := g.members }
 
 /-- a capability as the decoder hands it over.  `other` is every capability the negotiation
     only counts (route refresh, FQDN, software version, unknown codes, …). -/
